@@ -689,7 +689,7 @@ class PolytopeCheck(Check):
     def budget(self, tier):
         if tier == "quick":
             return {"runs": 320, "chunk": 2, "wall": 200, "run_timeout": 300, "min_wall": 60}
-        return {"runs": 1600, "chunk": 2, "wall": 1700, "run_timeout": 1500, "min_wall": 300}
+        return {"runs": 5000, "chunk": 2, "wall": 1700, "run_timeout": 1500, "min_wall": 300}
 
     def preload(self):
         import molgri.space.polytopes  # noqa: F401
